@@ -319,6 +319,55 @@ def make_admonition(eng, nval, alphabet):
     return body
 
 
+# ------------------------------------------------------------ admonition from real text (real tokenizer): inner Markdown carried over unchanged
+
+ADM_BODIES = ["AT&T rocks", "a &amp; b", "x &#38 y &#38; z", "R&D & more &c.", "<kbd>C</kbd> &lt;tag&gt;", "*em* `code` [l](u)", "5 < 6 &nbsp ok", "<span title='say \"hi\"'>x</span>", "<input disabled> <br> text"]
+
+
+def run_admonition_text(h2n, ph, opts_mod, bi, title):
+    """(title, body text) the admonition directive receives for a real HTML admonition whose paragraph holds ADM_BODIES[bi]."""
+    text = '<div class="admonition tip">\n' + ('<p class="title">My *T*</p>\n' if title else "") + "<p>" + ADM_BODIES[bi] + "</p>\n</div>"
+    h2n.tokenize_html = ph.tokenize_html
+    r = StubRenderer(False, {"html_admonition"})
+    out = h2n.html_to_nodes(text, 3, r)
+    if len(r.calls) != 1 or r.calls[0][0] != "admonition":
+        return ("admonition-directive-call", "%r: calls %r, output %r" % (text, r.calls, out))
+    _, got_title, content, _, additional = r.calls[0]
+    if got_title != ("My *T*" if title else "Note"):
+        return ("admonition-title", "%r: title %r" % (text, got_title))
+    _opts, body = effective_options(None, opts_mod, content, additional)
+    body = body if isinstance(body, str) else body.concretize()
+    want = [ADM_BODIES[bi]]
+    if "say" in want[0]:
+        want += [want[0].replace("'say \"hi\"'", q) for q in ('"say &quot;hi&quot;"', '"say &#34;hi&#34;"')]
+    if body.strip() not in want:
+        return ("admonition-body", "the paragraph %r of an HTML admonition reaches the directive as %r" % (ADM_BODIES[bi], body.strip()))
+    return None
+
+
+def make_admonition_text(eng):
+    h2n = M["myst_parser.mdit_to_docutils.html_to_nodes"]
+    ph = M["myst_parser.parsers.parse_html"]
+    opts_mod = M["myst_parser.parsers.options"]
+    bsel = new_int(eng, "body", 0, len(ADM_BODIES) - 1)
+    tsel = new_bool(eng, "title")
+    eng.witness_fn = lambda m: {"adm_text": [eng.eval_model(m, bsel), bool(eng.eval_model(m, tsel))]}
+
+    def body():
+        bi, title = eng.concretize_int(bsel), bool(tsel)
+        try:
+            err = run_admonition_text(h2n, ph, opts_mod, bi, title)
+        except Exception as exc:  # noqa
+            eng.fail("html-to-nodes-raises", "%s: %s" % (type(exc).__name__, exc))
+        if err:
+            eng.fail(*err)
+        eng.passed(2)
+        eng.note("directive")
+        return "ok"
+
+    return body
+
+
 def make_failure(eng):
     """tokenize_html raising any Exception -> one warning + raw HTML; extensions off -> tokenizer not even consulted."""
     h2n = M["myst_parser.mdit_to_docutils.html_to_nodes"]
@@ -546,6 +595,8 @@ def families(tier, seed):
     for nval in ([2] if q else [2, 3]):
         F.append(Family("admonition/V%d" % nval, make_admonition, "<div class='admonition X' name=Y> with X, Y <=%d symbolic chars over 'a\"#: ', 5 title forms, 3 body forms, extension on/off" % nval,
                         args=dict(nval=nval, alphabet='a"#: '), nontrivial="directive", max_forks=60000))
+    F.append(Family("admonition/text", make_admonition_text, "HTML admonitions from real text through the real tokenizer: paragraph bodies %r x with / without a title paragraph: the directive receives the inner Markdown unchanged "
+                    "(references without the closing ';', '<', valueless attributes; a quoted attribute value may be re-quoted)" % (ADM_BODIES,), nontrivial="directive", max_forks=1000))
     F.append(Family("figure-md/sphinx", make_figure_md, "real Sphinx builds of two pages with a figure-md directive (which forces html_image on for its own body) x html_image configured on/off x front matter present/absent: <img> outside the directive "
                     "converts iff html_image is configured, on the same and on the next page; the project configuration is unchanged", nontrivial="directive", max_forks=1000))
     F.append(Family("failure", make_failure, "tokenize_html raises ValueError/AssertionError/RecursionError/KeyError x 4 extension combinations", nontrivial="directive"))
@@ -583,6 +634,16 @@ class _Fail(Exception):
 
 
 def replay(label, witness):
+    if "adm_text" in witness:
+        import myst_parser.mdit_to_docutils.html_to_nodes as rh2n
+        import myst_parser.parsers.parse_html as rph
+        import myst_parser.parsers.options as ropts
+
+        try:
+            err = run_admonition_text(rh2n, rph, ropts, *witness["adm_text"])
+        except Exception as e:  # noqa
+            return ("C17/exception:%s" % type(e).__name__, "admonition text %r raised %r" % (witness["adm_text"], e))
+        return ("C17/%s" % err[0], err[1]) if err else None
     if "figure_md" in witness:
         hi, fm = witness["figure_md"]
         try:
